@@ -22,7 +22,8 @@ def gen_inputs(v, cfg, timeout=1200):
 
 
 def raw_of(src):
-    path = "".join(LONG if a == "LONG" else a for a in src["path"])
+    pad = "P" * src.get("_pad", 0)
+    path = "".join(LONG if a == "LONG" else pad if a == "PAD" else a for a in src["path"])
     return src["scheme"] + src["sep"] + src["auth"] + path + src["query"] + src["frag"]
 
 
@@ -30,10 +31,10 @@ def hx(s):
     return s.encode("latin-1").hex() if isinstance(s, str) else bytes(s).hex()
 
 
-def expand(bs):
+def expand(bs, npad=0):
     out = bytearray()
     for b in bs:
-        out += LONG.encode() if b == 1 else bytes([b])
+        out += LONG.encode() if b == 1 else (b"P" * npad) if b == 2 else bytes([b])
     return out.hex()
 
 
@@ -81,7 +82,7 @@ def judge(inp, obs):
             return "port", "port %s, expected %s" % (obs["port"], exp["port"])
         if (obs["user"] or "") != hx(exp["user"]):
             return "userinfo", "userinfo %s, expected %s" % (obs["user"], hx(exp["user"]))
-        allowed = [expand(p) for p in exp["paths"]]
+        allowed = [expand(p, src.get("_pad", 0)) for p in exp["paths"]]
         if obs["path"] not in allowed:
             return "path", "path %s, allowed canonical forms %s" % (obs["path"], allowed)
         if (obs["query"] if exp["hasq"] else (obs["query"] or None)) != (hx(exp["query"]) if exp["hasq"] else None):
@@ -157,11 +158,23 @@ def run_inputs(v, exe, ins, tag):
 
 def run(v, tier, rng):
     exe = build_driver("drv_url", ["drv_url.c", "acct.c"])
-    cfgs = ["Url_a.cfg", "Url_b.cfg"] + (["Url_c.cfg"] if tier == "thorough" else [])
+    cfgs = ["Url_a.cfg", "Url_b.cfg", "Url_d.cfg"] + (["Url_c.cfg"] if tier == "thorough" else [])
     total = 0
     okc = 0
     for cfg in cfgs:
         ins = gen_inputs(v, cfg)
+        if cfg == "Url_d.cfg":
+            # boundary of the 128-byte inline buffer: size the single PAD atom so that the text after the
+            # scheme ("://" to the end) is exactly 126..130 bytes long
+            out = []
+            for x in ins:
+                if x["src"]["path"].count("PAD") != 1:
+                    continue
+                base = len(raw_of(dict(x["src"], _pad=0))) - len(x["src"]["scheme"])
+                for target in (126, 127, 128, 129, 130):
+                    if target - base >= 1:
+                        out.append(dict(src=dict(x["src"], _pad=target - base), exp=x["exp"]))
+            ins = out
         total += len(ins)
         n = run_inputs(v, exe, ins, cfg)
         okc += n
